@@ -1,0 +1,27 @@
+//go:build verif
+
+package cache
+
+// Contracts for the inode cache, checked by /verif/govc (comment-only file).
+// P3 (C14): the entry table, the LRU list and the entry counter are touched
+// only while the cache's own mutex is held; LookupSlot takes and gives back
+// that mutex itself. container/list is not modelled (assumed, effect-free for
+// everything under contract); evict is assumed for the same reason.
+
+//@ protected cache.Cache.cnt by this.mu != nil && muheld[base(this.mu)] @C14
+//@ protected cache.Cache.entries by this.mu != nil && muheld[base(this.mu)] @C14
+//@ protected cache.Cache.lru by this.mu != nil && muheld[base(this.mu)] @C14
+
+//@ spec (*Cache).evict
+//@   assume
+//@   requires [P3-locked] c != nil && c.mu != nil && muheld[base(c.mu)] @C14
+//@   modifies cache.Cache.cnt, map[uint64]*cache.entry
+
+//@ spec (*Cache).LookupSlot
+//@   props C14 C11 C06
+//@   entryassumes [P3-own-mutex] c != nil && c.mu != nil && !muheld[base(c.mu)] && c.entries != nil && c.lru != nil
+//@   allocates cache.entry
+//@   modifies cache.Cache.cnt, map[uint64]*cache.entry, cache.entry.lru, muheld
+//@   panic_assumed "LookupSlot"
+//@   ensures [P3-result] result != nil @C11
+//@   ensures [P3-unlocked] muheld == old(muheld) @C14 @C06
